@@ -23,7 +23,8 @@ fn sym_bytes<S: Src>(s: &mut S, buf: &mut [u8; N]) -> usize {
     len
 }
 
-/// C05.O-1/O-3  &*SmallBytes::from(b) == b, len() == b.len(), inline iff len <= 22
+/// C05.O-1  &*SmallBytes::from(b) == b, len() == b.len() (which representation is chosen is not
+/// part of the property and is not asserted)
 pub fn from_slice_reads_back<S: Src>(s: &mut S) {
     let mut buf = [0u8; N];
     let len = sym_bytes(s, &mut buf);
@@ -33,7 +34,6 @@ pub fn from_slice_reads_back<S: Src>(s: &mut S) {
     assert!(sb.len() == len);
     assert!(sb.is_empty() == (len == 0));
     assert!(&*sb == &buf[..len]);
-    assert!(matches!(sb, SmallBytes::Small { .. }) == (len <= 22));
 }
 
 /// C05.O-1 for the owning constructors (Vec<u8>, Box<[u8]>)
